@@ -115,12 +115,12 @@ PROPS = {
                     dict(module="MC_System.tla", cfg="MC_System.cfg", workers=6), dict(module="MC_System.tla", cfg="MC_System_live.cfg", workers=1)], drivers=[dict(name="run", module="TraceRun.tla", args=["run-program", "--tier", "{tier}", "--out", "{out}", "--seed", "{seed}"]),
                                                                   dict(name="examples", module="TraceRun.tla", args=["example-run", "--tier", "{tier}", "--out", "{out}", "--repo", "{repo}"])],
                 count_traces="runs", tv_timeout=2400,
-                rule="guest programs laid out as ELF files, loaded by the real elf::load and executed by the REAL Cpu::run in-process: port set-up + loop + calls + write system calls with awkward bytes; five programs ending in an instruction that must be rejected (ret err); counted loops; timer + set_handler + interrupt + port scenario; a long loop crossing the first sync threshold (three thresholds in thorough). One event per run-loop iteration (registers, whole-memory diff, charged states, state_sum, pending queue, messages, console); TLC executes the same program with the spec (long runs: accounting / sync / timer / continuity projection). Each program is run 5 times (2 of them under 24 busy host threads) and the run summaries (final state, state count, iteration count, hashes of the per-iteration (pc, charge) sequence and of the message sequence) must be equal", assumptions=COMMON_ASSUME),
+                rule="guest programs laid out as ELF files, loaded by the real elf::load and executed by the REAL Cpu::run in-process: port set-up + loop + calls + write system calls with awkward bytes; five programs ending in an instruction that must be rejected (ret err); counted loops; timer + set_handler + interrupt + port scenario; a long loop crossing the first sync threshold (three thresholds in thorough); a counted loop selected so that the jump reaching the exit address is the instruction that crosses the threshold. One event per run-loop iteration (registers, whole-memory diff, charged states, state_sum, pending queue, messages, console); TLC executes the same program with the spec (long runs: accounting / sync / timer / continuity projection). Each program is run 5 times (2 of them under 24 busy host threads) and the run summaries (final state, state count, iteration count, hashes of the per-iteration (pc, charge) sequence and of the message sequence) must be equal", assumptions=COMMON_ASSUME),
     "C18": dict(gen=[dict(name="sched", module="MC_Sock.tla", cfg="Gen_Sock_t.cfg", cfg_q="Gen_Sock_q.cfg")],
                 mc=[dict(module="MC_Sock.tla", cfg="MC_Sock.cfg")],
                 drivers=[dict(name="sock", module="TraceRun.tla", args=["sock-replay", "--tier", "{tier}", "--in", "{sched}", "--out", "{out}", "--threads", "{threads}", "--seed", "{seed}"]),
                          dict(name="tcpin", module="TraceRun.tla", args=["tcp-lines", "--tier", "{tier}", "--out", "{out}", "--seed", "{seed}"]),
                          dict(name="tcp", module="TraceRun.tla", args=["tcp-frame", "--tier", "{tier}", "--out", "{out}", "--seed", "{seed}"])],
                 count_traces="histories", tv_timeout=2400,
-                rule="TLC enumerates EVERY sequence of 3 (4) lines over {pause, start, stop, two port stores, malformed cmd, malformed u8/ioport} x EVERY partition into polling batches; each is fed to the real Cpu::run through a channel-backed Socket, the on_poll hook enqueueing exactly the scheduled batch before pop_messages; plus seeded random schedules with batches of more than 16 lines, upper-case hex, unknown / empty lines, pins on valid and invalid ports, stores to RAM; per poll: effects of the lines in order (memory diff, announcements consumed from the message stream one by one, port read-backs), pause / start / stop state; iterations must not occur while paused or after stop; framing: MC_Sock round trip, TCP stream event", assumptions=COMMON_ASSUME),
+                rule="TLC enumerates EVERY sequence of 3 (4) lines over {pause, start, stop, two port stores, malformed cmd, malformed u8/ioport} x EVERY partition into polling batches; each is fed to the real Cpu::run through a channel-backed Socket, the on_poll hook enqueueing exactly the scheduled batch before pop_messages; plus seeded random schedules with batches of more than 16 lines, upper-case hex, unknown / empty lines, pins on valid and invalid ports, stores to RAM; per poll: effects of the lines in order (memory diff, announcements consumed from the message stream one by one, port read-backs), pause / start / stop state; iterations must not occur while paused or after stop; per run: the sequence handed to the socket's outgoing channel equals the emitted sequence (count + order-sensitive digest); real-TCP incoming lines incl. white-space-only lines; framing: MC_Sock round trip, TCP stream event", assumptions=COMMON_ASSUME),
 }
